@@ -379,6 +379,9 @@ func (f *Face) glyphDataFromGlyf(glyph gID) (GlyphOutline, error) {
 	}
 	var points []contourPoint
 	f.getPointsForGlyph(glyph, 0, &points)
+	if len(points) < phantomCount {
+		return GlyphOutline{}, errors.New("invalid composite glyph")
+	}
 	segments := buildSegments(points[:len(points)-phantomCount])
 	return GlyphOutline{Segments: segments}, nil
 }
